@@ -217,13 +217,15 @@ def judge_c08(case, side, res):
         slug = CYCLE_KNOWN(case)
         if slug:
             v["known"] = slug
+            # the real run left no tree to compare the model's with: the case is outside the correspondence
+            v["corr_ok"] = True; v["why"] = None
     elif st == "ok" and side.get("rerun_same") is False:
         v["ok"] = False; v["oracle_why"] = "a second run in the same process gave a different result"
     return v
 
 
 def CYCLE_KNOWN(case):
-    return None
+    return "cyclic_type_declaration" if "cyclic" in case.get("feat", []) else None
 
 
 def c08_fresh_process_extra(seed, tier):
@@ -872,7 +874,8 @@ PROPS = {
     },
     "C08": {
         "gen": lambda seed, tier, start: (lambda m: m + gen_modules(seed, tier, start + len(m), 260, 6000))(gen_cases.gen_matrix_cases(start))
-                                         + gen_cases.gen_types_cases(seed, 160 if tier == "quick" else 3000, start + 10000),
+                                         + gen_cases.gen_types_cases(seed, 160 if tier == "quick" else 3000, start + 10000)
+                                         + gen_cases.gen_cyclic_cases(start + 20000),
         "judge": judge_c08,
         "extra": c08_fresh_process_extra,
         "trusted": ["stack depth, wall-clock time and process-level nondeterminism cannot be exhibited by a Gallina model; they are covered by the harness's child-process runs only"],
